@@ -40,6 +40,8 @@ pub enum ModelParseError {
 
     #[error("USE_GV is true, but positions for GV is not set")]
     UseGvError,
+    #[error("Malformed tree: {0}")]
+    MalformedTree(String),
 
     #[error("Failed to parse question: {0}")]
     QuestionParseError(#[from] jlabel_question::ParseError),
